@@ -427,7 +427,7 @@ def ns_variation(root, rng):
 def random_style(rng, coq_only=False):
     st = {"priv_first": rng.random() < 0.5, "none": rng.random() < 0.4, "pub_out": rng.random() < 0.5,
           "priv_out": rng.random() < 0.5, "cm": rng.random() < 0.7, "us": rng.random() < 0.5, "hoist": rng.random() < 0.4,
-          "per_var": False, "place": False}
+          "per_var": False, "place": False, "mcpos": rng.choice([0, 0, 1, 2, 9]), "rrpos": rng.choice([0, 0, 1, 2, 9])}
     if not coq_only:
         st["per_var"] = rng.random() < 0.4
         st["place"] = rng.random() < 0.3
@@ -438,7 +438,8 @@ def random_style(rng, coq_only=False):
 
 def style_bits(version, st):
     return ("1" if version == "1.1" else "0") + "".join("1" if st[k] else "0" for k in
-                                                       ("priv_first", "none", "pub_out", "priv_out", "cm", "us", "hoist"))
+                                                       ("priv_first", "none", "pub_out", "priv_out", "cm", "us", "hoist")) \
+        + "-%d-%d" % (st.get("mcpos", 0), st.get("rrpos", 0))
 
 
 def iface_attrs(st, val):
@@ -525,11 +526,15 @@ def to1x(root, version, st, rng=None):
 
     def conv_encapsulation(x):
         rr = N(V, "relationship_ref", [["", "relationship", "encapsulation"]])
-        return N(V, "group", [conv_id(a) for a in x.attrs], [rr] + [conv_cref(k) if is20(k, "component_ref") else k for k in x.kids])
+        ks = [conv_cref(k) if is20(k, "component_ref") else k for k in x.kids]
+        i = min(st.get("rrpos", 0), len(ks))
+        return N(V, "group", [conv_id(a) for a in x.attrs], ks[:i] + [rr] + ks[i:])
 
     def conv_connection(x):
         mc = N(V, "map_components", [conv_id(a) for a in x.attrs])
-        return N(V, x.name, [], [mc] + [retag(k, conv_id) if is20(k, "map_variables") else k for k in x.kids])
+        ks = [retag(k, conv_id) if is20(k, "map_variables") else k for k in x.kids]
+        i = min(st.get("mcpos", 0), len(ks))
+        return N(V, x.name, [], ks[:i] + [mc] + ks[i:])
 
     kids = []
     for k in root.kids:
@@ -575,6 +580,61 @@ def to1x(root, version, st, rng=None):
                     keep.append(k)
             kids = keep
     return N(V, root.name, [conv_id(a) for a in root.attrs], kids)
+
+
+# ------------------------------------------------------------------------------------------------ child order
+ORDER_MODES = ["order:model", "order:component", "order:connection", "order:group", "order:units", "order:import"]
+
+
+def shuffle_children(root, rng, modes):
+    """permutes children wherever the 1.x specifications fix no order and the loader scans the children (content neutral up
+    to child order): model {imports, units, components, groups, connections in any order}, component {units / variables /
+    math interleaved, variables permuted; the math blocks keep their relative order: they are concatenated}, connection
+    {map_components anywhere, map_variables permuted}, group {relationship_ref anywhere, top-level component_refs permuted},
+    units {unit children permuted}, import {children permuted}.  -> (new root, modes applied)"""
+    root = root.copy()
+    V = root.ns
+    applied = []
+
+    def perm(x):
+        ks = list(x.kids)
+        rng.shuffle(ks)
+        x.kids = ks
+
+    def keep_relative(x, pred):
+        """random permutation that keeps the relative order of the children satisfying pred"""
+        fixed = [k for k in x.kids if pred(k)]
+        ks = list(x.kids)
+        rng.shuffle(ks)
+        it = iter(fixed)
+        x.kids = [next(it) if pred(k) else k for k in ks]
+    for mode in modes:
+        if mode == "order:model":
+            perm(root)
+        elif mode == "order:component":
+            for c in root.elems():
+                if c.ns == V and c.name == "component":
+                    keep_relative(c, lambda k: isinstance(k, N) and k.ns == MATHML)
+        elif mode == "order:connection":
+            for c in root.elems():
+                if c.ns == V and c.name == "connection":
+                    perm(c)
+        elif mode == "order:group":
+            for g in root.elems():
+                if g.ns == V and g.name == "group":
+                    perm(g)
+        elif mode == "order:units":
+            for u in root.walk():
+                if u.ns == V and u.name == "units":
+                    perm(u)
+        elif mode == "order:import":
+            for u in root.elems():
+                if u.ns == V and u.name == "import":
+                    perm(u)
+        else:
+            raise ValueError(mode)
+        applied.append(mode)
+    return root, applied
 
 
 # ------------------------------------------------------------------------------------------------ decorations
@@ -877,6 +937,28 @@ def hand_documents():
         add("math_other_attrs_" + t, _m(ver, '<component name="c"><variable name="x" units="second"/>' + MATH +
                                             '<apply cmeta:id="eq1"><eq/><ci>x</ci><cn cellml:units="second" cellml:foo="f" type="real" cmeta:id="n1">1</cn></apply></math>'
                                             + MATH + '<apply><eq/><ci>x</ci><cn type="real" cellml:units="second">2</cn></apply></math></component>'), "legal")
+    # child order: the loader scans the children, the specifications fix no order
+    two = ('<component name="a"><variable name="x" units="second" public_interface="out"/><variable name="y" units="second" public_interface="in"/></component>'
+           '<component name="b"><variable name="x" units="second" public_interface="in"/><variable name="y" units="second" public_interface="out"/></component>')
+    mcx = '<map_components component_1="a" component_2="b" cmeta:id="conn"/>'
+    mv1, mv2 = '<map_variables variable_1="x" variable_2="x" cmeta:id="mx"/>', '<map_variables variable_1="y" variable_2="y"/>'
+    for ver in ("1.0", "1.1"):
+        t = ver.replace(".", "")
+        add("order_map_components_last_" + t, _m(ver, two + '<connection>' + mv1 + mv2 + mcx + '</connection>'), "legal", "valid")
+        add("order_map_components_middle_" + t, _m(ver, two + '<connection>' + mv1 + mcx + mv2 + '</connection>'), "legal", "valid")
+        add("order_map_components_after_rdf_" + t, _m(ver, two + '<connection><rdf:RDF/>' + mv2 + mcx + mv1 + '</connection>'), "legal")
+        add("order_relationship_ref_last_" + t, _m(ver, '<component name="a"/><component name="b"/><component name="c"/>'
+                                                  '<group><component_ref component="a"><component_ref component="b"/></component_ref>'
+                                                  '<component_ref component="c"/><relationship_ref relationship="encapsulation"/></group>'))
+        add("order_relationship_ref_between_" + t, _m(ver, '<component name="a"/><component name="b"/><component name="c"/><component name="d"/>'
+                                                     '<group><component_ref component="a"><component_ref component="b"/></component_ref>'
+                                                     '<relationship_ref relationship="encapsulation"/><component_ref component="c"><component_ref component="d"/></component_ref></group>'),
+            "legal", "valid")
+        add("order_model_children_" + t, _m(ver, '<connection>' + mv1 + mcx + '</connection>'
+                                           '<group><relationship_ref relationship="encapsulation"/><component_ref component="a"><component_ref component="c"/></component_ref></group>'
+                                           '<component name="c"><math xmlns="%s"><apply><eq/><ci>z</ci><cn cellml:units="u">1</cn></apply></math><variable name="z" units="u"/><units name="u"><unit units="second"/></units></component>'
+                                           % MATHML + two.replace('<component name="a">', '<component name="a"><units name="w"><unit units="u" exponent="2"/><unit units="metre"/></units>')
+                                           + '<units name="k"><unit units="w"/></units>'), "legal", "valid")
     # where the legacy prefix is declared x whether the math block uses it
     M, C10, C11, C20 = MATHML, CELLML10, CELLML11, CELLML20
 
